@@ -17,7 +17,8 @@ import (
 // C14: deletion removes exactly the selected members and all APIs agree after it.
 // C10: MarshalJSON emits valid JSON denoting the same document.
 
-var editProfiles = []docProfile{profTiny, profTiny, profMedium, profKeys, profUniq, profStr, profNum, profDeep}
+// (the deep-spine profile is about 30 times as expensive per case as the others: one case in fourteen)
+var editProfiles = []docProfile{profTiny, profTiny, profMedium, profKeys, profUniq, profStr, profNum, profTiny, profMedium, profKeys, profUniq, profStr, profNum, profDeep}
 
 func c13Check(c historyCase) error { return runHistory(c, fullInvariants, nil) }
 func c14Check(c historyCase) error {
